@@ -64,7 +64,10 @@ func zzC16_limits() {
 	l := New(total, perEP, do, nil)
 	keys := make([]uint64, R)
 	var wg sync.WaitGroup
-	for i := 0; i < R; i++ {
+	arrived := 0
+	arrive := func() {
+		i := arrived
+		arrived++
 		ctx, cancel := context.WithCancel(context.Background())
 		r := &zzReq{cancel: cancel, finish: make(chan struct{})}
 		if npaths > 1 {
@@ -84,15 +87,20 @@ func zzC16_limits() {
 			mu.Unlock()
 			wg.Done()
 		}()
-		// arrival order is made observable: the next request starts once this one is admitted or queued
+		// arrival order is made observable: the controller continues once this request is admitted or queued
 		k := keys[i]
 		symWaitUntil(func() bool { return zzQueued(l, k) > before || r.done })
 	}
-	// controller: finish or cancel requests in a decided order
-	for step := 0; step < 2*R; step++ {
-		var cands []int // event code: i = finish i, R+i = cancel i
+	upfront := symParam("upfront", R)
+	for arrived < upfront {
+		arrive()
+	}
+	// controller: let a request arrive, finish or cancel requests, in every decided order
+	for step := 0; step < 3*R; step++ {
+		var cands []int // event code: i = finish i, R+i = cancel i, 2R = next arrival
 		mu.Lock()
-		for i, r := range reqs {
+		for i := 0; i < arrived; i++ {
+			r := reqs[i]
 			if r.admitted > 0 && !r.finished {
 				cands = append(cands, i)
 			}
@@ -101,16 +109,22 @@ func zzC16_limits() {
 			}
 		}
 		mu.Unlock()
+		if arrived < R {
+			cands = append(cands, 2*R)
+		}
 		if len(cands) == 0 {
 			break
 		}
 		ev := cands[symChoose("event", len(cands))]
-		if ev < R {
+		switch {
+		case ev == 2*R:
+			arrive()
+		case ev < R:
 			reqs[ev].finished = true
 			close(reqs[ev].finish)
 			r := reqs[ev]
 			symWaitUntil(func() bool { return r.done })
-		} else {
+		default:
 			r := reqs[ev-R]
 			r.canceled = true
 			r.cancel()
@@ -119,6 +133,9 @@ func zzC16_limits() {
 				symWaitUntil(func() bool { return r.done || r.admitted > 0 })
 			}
 		}
+	}
+	for arrived < R {
+		arrive()
 	}
 	// release whatever is still running
 	for _, r := range reqs {
